@@ -88,10 +88,9 @@ var c01fragInts = []int64{0, 1, 1, 2, 3, 5, 7, 10, -1, -3, 100, 9223372036854775
 var c01fragWords = []string{"a", "bc", "", "x y", "risor", "z"}
 
 func (g *c01fragGen) otherTy(ty string) string {
-	// int- and str-typed positions only ever hold ints or strings: Sem.lean and VM.lean model the
-	// ORDERED comparison of two bools / two nils as a type error, the real code orders them
-	// (object.Bool.Compare, NilType.Compare); the generator keeps away from that gap
-	return Pick(g.r, map[string][]string{"int": {"str"}, "bool": {"int", "str", "nil"}, "str": {"int"}}[ty])
+	// any other type: two bools / two nils under an ordered comparison are ordered by the real code
+	// (object.Bool.Compare: false < true; NilType.Compare: equal) and by the models
+	return Pick(g.r, map[string][]string{"int": {"str", "bool", "nil"}, "bool": {"int", "str", "nil"}, "str": {"int", "bool", "nil"}}[ty])
 }
 
 // expr generates an expression of (intended) type ty; noTern forbids the ternary (the parser
@@ -171,6 +170,11 @@ func (g *c01fragGen) expr(ty string, d int, noTern bool) *N {
 			if !noTern {
 				return g.tern(func() *N { return g.expr("bool", d-1, true) }, func() *N { return g.expr("bool", d-1, true) }, func() *N { return g.expr("bool", d-1, true) })
 			}
+		case 9: // ordered comparison of two bools (false < true) or of two nils (equal)
+			if g.r.Chance(80) {
+				return nInfix(Pick(g.r, cmp), g.expr("bool", d-1, noTern), g.expr("bool", d-1, noTern))
+			}
+			return nInfix(Pick(g.r, cmp), n("nil"), n("nil"))
 		}
 	case "str":
 		switch g.r.Intn(6) {
@@ -229,9 +233,9 @@ func (g *c01fragGen) switchExpr(ty string, d int) *N {
 		c.C = append(c.C, body())
 		cases = append(cases, c)
 	}
-	// in a value position the default is mandatory: without it the switch may yield nil in a typed
-	// position, and two nils under an ordered comparison are the gap described at otherTy
-	if g.r.Chance(60) || ty != "" || kc == 0 {
+	// in a value position the default is mandatory unless error outcomes are wanted: without it the
+	// switch may yield nil in a typed position
+	if g.r.Chance(60) || (ty != "" && !g.errs) || kc == 0 {
 		dflt := n("default", body())
 		if g.r.Chance(15) && len(cases) > 0 { // a default that is not the last clause
 			k := g.r.Intn(len(cases))
